@@ -17,6 +17,8 @@ import (
 //   DET-COLLECT   a slice collected from a map (maps.Keys/Values, or appended
 //                 in a map range) is totally sorted before any order-dependent use
 //   DET-SOURCE    no call of a wall-clock / random / pid / address source
+//   DET-INPUT     serialisers and query methods leave the value they are called on and all
+//                 package-level state unchanged (the second call sees what the first one saw)
 
 func init() {
 	register(&propCheck{
@@ -25,7 +27,8 @@ func init() {
 		explanation: "Decides the structural clause of C17: every `range` over a map in library code has a body whose effects commute " +
 			"(keyed writes into another map, appends into a slice that is totally sorted before any other use, whitelisted min/max reducers, body-local state), " +
 			"or is dominated by a len==1 guard; every slice obtained from maps.Keys/Values is totally sorted (sort on the element itself as final tie-break) before an order-dependent use; " +
-			"and library code calls no wall-clock, random, pid, environment or address-printing source. " +
+			"library code calls no wall-clock, random, pid, environment or address-printing source; " +
+			"and no serialiser or query method writes memory reachable from its receiver or a package-level variable (repeated calls see the same input). " +
 			"It does NOT decide byte equality of outputs as such: that follows only if no other nondeterminism source exists; text/template's sorted map iteration is trusted.",
 		trusted:     []string{"go/types, go/ssa (x/tools v0.29.0)", "text/template ranges over maps in sorted key order (documented)", "sort.Slice/slices.Sort are deterministic functions of their input", "whitelist of commutative reducers: rect.Rect.Extend, funit.Rect16.Extend, funit.Rect.Extend (min/max updates)"},
 		assumptions: []string{"float min/max reducers are treated as commutative (NaN and signed zero ignored)"},
@@ -37,8 +40,9 @@ type sink func(rule, fn, construct string, pos token.Pos, ok bool, tactic, detai
 
 func runC17(c *Ctx) {
 	nRange := 0
+	modSSA := newSSAIndex(c.prog, c.modFuncs)
 	for _, p := range c.sortedPkgs() {
-		d := &detAnalyzer{c: c, pkg: p, info: p.TypesInfo, emit: func(rule, fn, construct string, pos token.Pos, ok bool, tactic, detail string) {
+		d := &detAnalyzer{c: c, pkg: p, info: p.TypesInfo, ssa: modSSA, emit: func(rule, fn, construct string, pos token.Pos, ok bool, tactic, detail string) {
 			if rule == "DET-MAPRANGE" {
 				nRange++
 			}
@@ -53,21 +57,27 @@ func runC17(c *Ctx) {
 	c.floor("DET-MAPRANGE", 4)
 	c.floor("DET-COLLECT", 3)
 
+	// DET-INPUT: output is a function of the value written only if writing leaves that value
+	// and every package-level variable as they were; otherwise a history of calls shows
+	c.readOnlyEntryPoints("DET-INPUT", "leaves its input and all package-level state unchanged", 12,
+		": writing or querying the same value a second time (or another value afterwards) can then give a different result although the caller changed nothing")
+
 	// positive control: the same rules must fire on the control package
 	ctl := c.loadControl("ctl17")
 	fired := map[string]int{}
-	d := &detAnalyzer{c: c, pkg: ctl, info: ctl.TypesInfo, control: true, emit: func(rule, fn, construct string, pos token.Pos, ok bool, tactic, detail string) {
+	d := &detAnalyzer{c: c, pkg: ctl, info: ctl.TypesInfo, control: true, ssa: controlSSA(ctl), emit: func(rule, fn, construct string, pos token.Pos, ok bool, tactic, detail string) {
 		if !ok {
 			fired[rule+"|"+fn]++
 		}
 	}}
 	d.run()
 	want := []string{"DET-COLLECT|ctl17.AppendInOrder", "DET-MAPRANGE|ctl17.FirstHit", "DET-MAPRANGE|ctl17.Concat", "DET-COLLECT|ctl17.KeysUnsorted",
-		"DET-COLLECT|ctl17.PartialSort", "DET-SOURCE|ctl17.Clock", "DET-SOURCE|ctl17.Random", "DET-SOURCE|ctl17.Addr"}
+		"DET-COLLECT|ctl17.PartialSort", "DET-SOURCE|ctl17.Clock", "DET-SOURCE|ctl17.Random", "DET-SOURCE|ctl17.Addr",
+		"DET-COLLECT|ctl17.SortFuncPartial", "DET-COLLECT|ctl17.SorterByPosition"}
 	for _, w := range want {
 		c.check(fired[w] > 0, "DET-CONTROL", "control", w, token.NoPos, "positive control fired", "the positive control "+w+" was not reported: the rule is broken")
 	}
-	silent := []string{"ctl17.KeyedCopy", "ctl17.SortedKeys", "ctl17.MinMax"}
+	silent := []string{"ctl17.KeyedCopy", "ctl17.SortedKeys", "ctl17.MinMax", "ctl17.SortFuncTotal", "ctl17.SorterType"}
 	for _, s := range silent {
 		n := 0
 		for k, v := range fired {
@@ -119,6 +129,7 @@ type detAnalyzer struct {
 	info    *types.Info
 	emit    sink
 	control bool
+	ssa     *ssaIndex // SSA form of the function literals and functions of the package
 }
 
 func (d *detAnalyzer) pkgShort() string {
@@ -312,6 +323,14 @@ func (d *detAnalyzer) mapCollectCall(e ast.Expr) string {
 	if f.Pkg().Path() == "golang.org/x/exp/maps" && (f.Name() == "Keys" || f.Name() == "Values") {
 		return "maps." + f.Name() + "(" + types.ExprString(call.Args[0]) + ")"
 	}
+	// the iterator forms of the standard library: slices.Collect(maps.Keys(m)) (slices.Sorted sorts)
+	if f.Pkg().Path() == "slices" && (f.Name() == "Collect" || f.Name() == "AppendSeq") && len(call.Args) > 0 {
+		if inner, ok := unparen(call.Args[len(call.Args)-1]).(*ast.CallExpr); ok && len(inner.Args) == 1 {
+			if g, ok := typeutil.Callee(d.info, inner).(*types.Func); ok && g.Pkg() != nil && g.Pkg().Path() == "maps" && (g.Name() == "Keys" || g.Name() == "Values") {
+				return "maps." + g.Name() + "(" + types.ExprString(inner.Args[0]) + ")"
+			}
+		}
+	}
 	return ""
 }
 
@@ -371,51 +390,23 @@ func (d *detAnalyzer) mentions(n ast.Node, obj types.Object) bool {
 	return found
 }
 
-// isTotalSort: statement sorts the slice obj with a total order.
+// isTotalSort: statement sorts the slice obj with a total order (ext_h.go: the sort call and its
+// comparison function in any of their spellings, decided on the SSA form).
 func (d *detAnalyzer) isTotalSort(st ast.Stmt, obj types.Object) (bool, string) {
-	es, ok := st.(*ast.ExprStmt)
-	if !ok {
+	sp, isSort, why := d.sortOf(st, obj)
+	if !isSort {
 		return false, ""
 	}
-	call, ok := es.X.(*ast.CallExpr)
-	if !ok || len(call.Args) == 0 {
-		return false, ""
+	if sp == nil {
+		return false, why
 	}
-	id, ok := unparen(call.Args[0]).(*ast.Ident)
-	if !ok || d.info.ObjectOf(id) != obj {
-		return false, ""
+	if ok, why := d.totalOrder(sp); !ok {
+		return false, why
 	}
-	f, ok := typeutil.Callee(d.info, call).(*types.Func)
-	if !ok || f.Pkg() == nil {
-		return false, ""
+	if sp.kind == "natural" {
+		return true, sp.desc
 	}
-	full := f.Pkg().Path() + "." + f.Name()
-	switch full {
-	case "slices.Sort", "golang.org/x/exp/slices.Sort", "sort.Strings", "sort.Ints", "sort.Float64s":
-		return true, full
-	case "sort.Slice", "sort.SliceStable":
-		if len(call.Args) != 2 {
-			return false, "unexpected arguments"
-		}
-		lit, ok := call.Args[1].(*ast.FuncLit)
-		if !ok || len(lit.Type.Params.List) == 0 {
-			return false, "comparator is not a function literal"
-		}
-		var params []types.Object
-		for _, f := range lit.Type.Params.List {
-			for _, n := range f.Names {
-				params = append(params, d.info.Defs[n])
-			}
-		}
-		if len(params) != 2 || len(lit.Body.List) == 0 {
-			return false, "unexpected comparator shape"
-		}
-		if ok, why := d.totalComparator(lit, params, obj); !ok {
-			return false, why
-		}
-		return true, full + " with final tie-break on the element itself"
-	}
-	return false, ""
+	return true, sp.desc + " with final tie-break on the element itself"
 }
 
 // orderFreeUse: a statement that mentions the unordered slice but does not
@@ -1036,219 +1027,6 @@ func (b *bodyClass) callExpr(call *ast.CallExpr, stmt bool) {
 		}
 	}
 	b.problem(call.Pos(), "call of %s, which %s", f.FullName(), eff.String())
-}
-
-// totalComparator decides, by a decision table, whether less(i, j) is a strict total order on
-// distinct elements: the comparisons of the comparator are grouped into pairs (the elements
-// themselves, and any number of keys derived from them); for every combination of outcomes
-// (<, =, >) of these pairs the comparator is evaluated for (i, j) and for the mirrored
-// combination, and exactly one of the two must be true unless every pair is equal.  The form of
-// the comparator (if chains, inverted tests, hoisted locals) does not matter.
-func (d *detAnalyzer) totalComparator(lit *ast.FuncLit, params []types.Object, slice types.Object) (bool, string) {
-	defs := map[types.Object]ast.Expr{}
-	ast.Inspect(lit.Body, func(n ast.Node) bool {
-		if as, ok := n.(*ast.AssignStmt); ok && as.Tok == token.DEFINE && len(as.Lhs) == len(as.Rhs) {
-			for k, l := range as.Lhs {
-				if id, ok := l.(*ast.Ident); ok {
-					defs[d.info.Defs[id]] = as.Rhs[k]
-				}
-			}
-		}
-		return true
-	})
-	var resolve func(e ast.Expr, depth int) ast.Expr
-	resolve = func(e ast.Expr, depth int) ast.Expr {
-		e = unparen(e)
-		if id, ok := e.(*ast.Ident); ok && depth < 4 {
-			if r, ok := defs[d.info.ObjectOf(id)]; ok {
-				return resolve(r, depth+1)
-			}
-		}
-		return e
-	}
-	// side: 0 mentions only the first parameter, 1 only the second, -1 otherwise; key: the
-	// expression with the parameter abstracted
-	describe := func(e ast.Expr) (side int, key string, isElem bool) {
-		r := resolve(e, 0)
-		uses := [2]bool{}
-		var render func(n ast.Expr) string
-		render = func(n ast.Expr) string {
-			n = resolve(n, 0)
-			switch x := n.(type) {
-			case *ast.Ident:
-				o := d.info.ObjectOf(x)
-				if o == params[0] {
-					uses[0] = true
-					return "·"
-				}
-				if o == params[1] {
-					uses[1] = true
-					return "·"
-				}
-				return x.Name
-			case *ast.IndexExpr:
-				return render(x.X) + "[" + render(x.Index) + "]"
-			case *ast.SelectorExpr:
-				return render(x.X) + "." + x.Sel.Name
-			case *ast.CallExpr:
-				s := types.ExprString(x.Fun) + "("
-				for _, a := range x.Args {
-					s += render(a) + ","
-				}
-				return s + ")"
-			}
-			return types.ExprString(n)
-		}
-		key = render(r)
-		switch {
-		case uses[0] && !uses[1]:
-			side = 0
-		case uses[1] && !uses[0]:
-			side = 1
-		default:
-			side = -1
-		}
-		if ix, ok := r.(*ast.IndexExpr); ok {
-			x, ok1 := unparen(ix.X).(*ast.Ident)
-			k, ok2 := unparen(ix.Index).(*ast.Ident)
-			if ok1 && ok2 && d.info.ObjectOf(x) == slice && (d.info.ObjectOf(k) == params[0] || d.info.ObjectOf(k) == params[1]) {
-				isElem = true
-			}
-		}
-		return
-	}
-	// discover the pairs
-	var keys []string
-	elemKey := ""
-	seen := map[string]bool{}
-	ast.Inspect(lit.Body, func(n ast.Node) bool {
-		be, ok := n.(*ast.BinaryExpr)
-		if !ok {
-			return true
-		}
-		switch be.Op {
-		case token.LSS, token.GTR, token.LEQ, token.GEQ, token.EQL, token.NEQ:
-		default:
-			return true
-		}
-		sx, kx, ex := describe(be.X)
-		sy, ky, ey := describe(be.Y)
-		if sx < 0 || sy < 0 || sx == sy || kx != ky {
-			return true
-		}
-		if !seen[kx] {
-			seen[kx] = true
-			keys = append(keys, kx)
-		}
-		if ex && ey {
-			elemKey = kx
-		}
-		return true
-	})
-	if elemKey == "" {
-		return false, "the comparator never compares the elements themselves, so elements with equal keys keep map iteration order"
-	}
-	if len(keys) > 4 {
-		return false, "comparator too complex to tabulate"
-	}
-	if bt, ok := slice.Type().Underlying().(*types.Slice); ok {
-		if b, ok := bt.Elem().Underlying().(*types.Basic); !ok || b.Info()&types.IsOrdered == 0 {
-			return false, "element type is not an ordered basic type"
-		}
-	}
-	eval := func(rel map[string]int) (bool, bool) {
-		env := &aenv{info: d.info, vars: map[types.Object]aval{}}
-		env.hook = func(e ast.Expr) (aval, bool) {
-			be, ok := unparen(e).(*ast.BinaryExpr)
-			if !ok {
-				return aval{}, false
-			}
-			sx, kx, _ := describe(be.X)
-			sy, ky, _ := describe(be.Y)
-			if sx < 0 || sy < 0 || sx == sy || kx != ky {
-				return aval{}, false
-			}
-			r, ok := rel[kx]
-			if !ok {
-				return aval{}, false
-			}
-			if sx == 1 { // operands written as (j, i)
-				r = -r
-			}
-			var v bool
-			switch be.Op {
-			case token.LSS:
-				v = r < 0
-			case token.GTR:
-				v = r > 0
-			case token.LEQ:
-				v = r <= 0
-			case token.GEQ:
-				v = r >= 0
-			case token.EQL:
-				v = r == 0
-			case token.NEQ:
-				v = r != 0
-			default:
-				return aval{}, false
-			}
-			return aval{isBool: true, b: v}, true
-		}
-		var out outcome
-		ok := false
-		func() {
-			defer func() {
-				if r := recover(); r != nil {
-					if _, isE := r.(evalErr); !isE {
-						panic(r)
-					}
-				}
-			}()
-			if env.run(lit.Body.List, true, &out) && out.kind == "return" && len(out.vals) == 1 && out.vals[0].isBool {
-				ok = true
-			}
-		}()
-		if !ok {
-			return false, false
-		}
-		return out.vals[0].b, true
-	}
-	n := len(keys)
-	total := 1
-	for k := 0; k < n; k++ {
-		total *= 3
-	}
-	for cell := 0; cell < total; cell++ {
-		rel, mir := map[string]int{}, map[string]int{}
-		allEq := true
-		x := cell
-		for _, k := range keys {
-			r := x%3 - 1
-			x /= 3
-			rel[k], mir[k] = r, -r
-			if r != 0 {
-				allEq = false
-			}
-		}
-		if rel[elemKey] == 0 && !allEq {
-			continue // equal elements have equal keys
-		}
-		a, ok1 := eval(rel)
-		b, ok2 := eval(mir)
-		if !ok1 || !ok2 {
-			return false, "the comparator is not pure comparison code over its two elements (not decidable)"
-		}
-		if allEq {
-			if a {
-				return false, "the comparator calls an element less than itself"
-			}
-			continue
-		}
-		if a == b {
-			return false, fmt.Sprintf("the order is not total: for two different elements with key relations %v neither (or both) is less than the other, so their relative order is whatever the map iteration produced", rel)
-		}
-	}
-	return true, ""
 }
 
 // switchAsIfChain rewrites a tagless switch without init, fallthrough or unlabelled break as the
